@@ -64,13 +64,21 @@ def h09a(c, max_frags=1):
         market = cm.add_market(fl, bk1)
         mw(market)
         # order A on the runner that is removed
-        a_state = c.choose("a_state", ["resting", "pending-placement", "completed"])
+        a_state = c.choose("a_state", ["resting", "resting-sp", "pending-placement", "completed"])
         c.tag("a_state", a_state)
         pkg = None
         if a_state == "resting":
             A, da = ss.resting_limit(c, "a", fl, market, strategy, 100, selection_id=1, max_frags=max_frags, persistence="LAPSE",
                                      statuses=[OrderStatus.EXECUTABLE, OrderStatus.CANCELLING] if b_kind == "LIMIT" else [OrderStatus.EXECUTABLE],
                                      price=3.0)
+        elif a_state == "resting-sp":
+            # a starting-price order resting at the exchange, waiting for the reconciliation that will never come for a removed runner
+            a_kind = c.choose("a_kind", ["MOC", "LOC"])
+            c.tag("a_kind", a_kind)
+            a_side = c.choose("a_side", ["BACK", "LAY"])
+            A = cm.mk_moc(strategy, a_side, c.cents("a_liability", 1, 1000000), selection_id=1) if a_kind == "MOC" else \
+                cm.mk_loc(strategy, a_side, c.cents("a_liability", 1, 1000000), 3.0, selection_id=1)
+            cm.place_resting(fl, market, strategy, A, 100)
         elif a_state == "completed":
             A, da = ss.resting_limit(c, "a", fl, market, strategy, 100, selection_id=1, max_frags=max_frags, status=OrderStatus.EXECUTABLE,
                                      persistence="LAPSE", price=3.0, side="BACK")
